@@ -213,3 +213,16 @@ func init() {
 		},
 	}
 }
+
+func init() {
+	properties["C15"] = Property{
+		Level: "exploration",
+		Rule:  "one case = one step of a history over 3 locations sharing 2 rule ids: add scheduled rule (one-shot +d, !time, recurring), overwrite by ordinary rule / by plain fact, RemRule, RemFact, cascade delete through deleteWith, Clear, reload of all locations; persistent and ephemeral recording Cronner; both states; after the step registrations are compared with the model's live scheduled rules per location and a tick is delivered for every current or former registration; plus timed scenarios (expiry of a scheduled rule; the real built-in cron through sys.System with +1s rules of one id in two locations, canary-judged); non-trivial = the set of live scheduled rules changed or a tick was delivered; distinct by canonical JSON of (state, cron kind, history prefix)",
+		Floor: [2]int{150, 1500},
+		Assumptions: []string{"the recording Cronner keys jobs by (location, id), i.e. it reports what the engine asked for", "stale registrations are attributed to open findings by the kind of step that should have removed them"},
+		Stages: []Stage{
+			{Name: "hooks", Pkg: "./mon/c15", Procs: 2, Batches: [2]int{4, 8}, TimeoutS: [2]int{900, 3600}},
+			{Name: "timed", Pkg: "./mon/c15", Procs: 2, Batches: [2]int{1, 1}, TimeoutS: [2]int{300, 600}},
+		},
+	}
+}
